@@ -359,6 +359,17 @@ def modelled_members_and_casts():
     ]
 
 
+def nan_programs():
+    """IEEE-754: every ordered comparison with a NaN operand is false, `!=` is true (NaN from the square root of a negative
+    number and from inf - inf; neither is ever displayed: the models do not render NaN / Inf)."""
+    return [
+        'fn main() { let n = (0.0 - 1.0) ** 0.5; println(n <= 1.0, n >= 1.0, n < 1.0, n > 1.0, n == n, n != n, 1.0 <= n, 1.0 >= n); let r = 0; while n <= 0.0 { r += 1; if r > 2 { break; } } '
+        'println("rounds", r); println(if n >= 0.0 { "ge" } else { "unordered" }); let i = 10.0 ** 400.0; println(i > 1.0, (i - i) <= i, (i - i) >= i, (i - i) != (i - i)); }',
+        'fn cmp(a: float, b: float) -> str { if a < b { "lt" } else if a > b { "gt" } else if a == b { "eq" } else if a <= b { "le?" } else if a >= b { "ge?" } else { "unordered" } } '
+        'fn main() { let n = (0.0 - 4.0) ** 0.5; println(cmp(n, 1.0), cmp(1.0, n), cmp(n, n), cmp(1.0, 1.0), cmp(0.5, 1.0)); let l = [n, 1.0]; println(l[0] <= l[1], l[0] >= l[1], !(l[0] > l[1])); }',
+    ]
+
+
 def overlapping_match():
     """`match` takes the FIRST arm that lists the value: arms sharing a literal (the analyzer accepts them)."""
     return [
@@ -381,6 +392,8 @@ def tour():
         'import { trigger minute } from triggers;\n#[trigger on minute(1)]\nevent fn cb(elapsed: int) { println("cb"); }\nfn main() { println("m"); }',
         'import { type HttpResponse } from net;\nfn show(r: ?HttpResponse) -> str { if r.is_some() { r.unwrap().status } else { "nothing" } }\nfn main() { println(show(none)); println(show(?new { status: "OK", status_code: 200, body: "b", cookies: new { ? } })); }',
         'import { templ FooFeature } from templates;\n$Lamp = { power: bool, lvl: int };\nimpl FooFeature with { light } for $Lamp {\n    fn dim(self: $Lamp, percent: int) -> bool { self.lvl = percent; percent > 50 }\n}\nfn main() { println($Lamp.lvl); println(dim(70)); println($Lamp.lvl); println(dim(10), $Lamp.lvl); }',
+        # a function literal written inside try blocks, leaving through `return`: the handlers of its caller stay in force
+        'fn main() { try { let f0 = fn() -> int { return 5; }; println(f0()); } catch z { println("never"); } println("after plain try"); try { let f = fn() -> int { return 1; }; println(f()); throw("boom"); } catch e { println("caught", e.message); } try { try { let g = fn(k: int) -> int { if k > 0 { return k; } 0 }; println(g(2), g(0)); } catch a { println("inner"); } throw("outer"); } catch b { println("caught", b.message); } println("done"); }',
         'fn main() { assert(true); println("ok"); assert(1 == 2); println("not reached"); }',
         'fn main() { debug(1, "a", [1, 2], new { a: 1 }); println("after debug"); }',
         'fn main() { println(fmt("%d and %s", 1, "x")); println(fmt("%v|%v", [1], 2.5)); }',
@@ -406,6 +419,7 @@ def all_families():
     return {
         "tour": tour(),
         "overlapping_match": overlapping_match(),
+        "nan": nan_programs(),
         "snapshot": snapshot(),
         "sharing": sharing(),
         "shadowing": shadowing(),
